@@ -18,6 +18,7 @@ structure PCase where
   client : String
   frames : List Bytes
   payload : Option (List Bytes)
+  tail : Bytes := []
   dec : List (Bytes × Frame)
 
 def svcAddr (k : Nat) : String := "unix:%D/s" ++ toString k ++ ".sock"
@@ -48,8 +49,11 @@ def parsePCase : Sx → Option PCase
     let payload := items.findSome? fun it => match it with
       | Sx.list (Sx.atom "payload" :: cs) => cs.mapM asBytes
       | _ => none
+    let tail := (items.findSome? fun it => match it with
+      | Sx.list [Sx.atom "tail", b] => asBytes b
+      | _ => none).getD []
     let dec ← parseDec dec
-    pure { mode := m, modeArg := arg, worlds := ws, table := rt, client, frames, payload, dec }
+    pure { mode := m, modeArg := arg, worlds := ws, table := rt, client, frames, payload, tail, dec }
   | _ => none
 
 def PCase.fs (c : PCase) : List Frame := c.frames.map (decOf c.dec)
@@ -90,7 +94,7 @@ def PCase.routed (c : PCase) : List ProxyPred.Routed :=
 
 /-- names of the interfaces of a world whose calls the harness logs (scripted ones, not the sentinel) -/
 def loggedNames (w : WorldSpec) : List String :=
-  (w.svc.ifaces.filter (fun i => i.name != vtestName && i.name != sentinelIface)).map (·.name)
+  w.scripts.filter (· != sentinelIface)
 
 def isLogged (c : PCase) (t : Nat) (r : Request) : Bool :=
   if t < c.worlds.length then
@@ -128,7 +132,8 @@ def proxyObs (c : PCase) : Sx :=
       | .bad => none
     (t, o, raw, seen, calls)
   let directSx : Sx := .list (.atom "direct" :: directRuns.map fun (t, o, raw, _, _) =>
-    .list [.atom (toString t), .list (.atom "out" :: o.groups.flatten.map ofReply), bytesAtom raw])
+    let ending := match o.status with | .err => "closed" | _ => "open"
+    .list [.atom (toString t), .list (.atom "out" :: o.groups.flatten.map ofReply), bytesAtom raw, .atom ending])
   let directLog := directRuns.map fun (t, _, _, _, calls) => (t, calls)
   let upDirect : Bytes := (directRuns.map fun (_, _, _, seen, _) => seen).flatten
   if c.mode == "connect" then
@@ -152,7 +157,11 @@ def proxyObs (c : PCase) : Sx :=
     let w := c.world
     let early := c.client == "closeearly"
     let dropAll := early && c.mode == "bridge2"     -- the outer pump drops input that is pending when the client closes
-    let o := Proxy.run w {} (if dropAll then [] else fs)
+    -- byte level: `Proxy.bridge` on the stream the client writes; by C18_bridge_chunking_invariance the
+    -- segmentation does not matter, so the whole stream is handed over in one read
+    let stream : Bytes := (c.frames.map fun f => f ++ [0]).flatten ++ (if early then c.tail else [])
+    let bo := Proxy.bridge w (decOf c.dec) (if dropAll || stream.isEmpty then [] else [stream])
+    let o : Proxy.Out := { groups := bo.groups, sent := bo.sent, status := bo.status, consumed := 0 }
     let pipelinedPayload := c.client == "pipelined"
     let pump : Option Proxy.Pumped := match o.status with
       | .upgraded _ (some i) =>
@@ -210,11 +219,17 @@ def parseBridged : Sx → Option (Option ProxyPred.Bridged)
 
 def parseDirect (l : List Sx) : List (Nat × List ProxyPred.PRep × List UInt8) :=
   l.filterMap fun e => match e with
-    | Sx.list [t, Sx.list (Sx.atom "out" :: rs), raw] => do
+    | Sx.list [t, Sx.list (Sx.atom "out" :: rs), raw, _] => do
       let t ← asNat t
       let raw ← asBytes raw
       pure (t, parsePReps rs, raw)
-    | Sx.list [t, Sx.list (Sx.atom "fail" :: _), _] => (asNat t).map fun t => (t, [], [])
+    | Sx.list [t, Sx.list (Sx.atom "fail" :: _), _, _] => (asNat t).map fun t => (t, [], [])
+    | _ => none
+
+/-- the services whose direct connection was closed by the service -/
+def parseDirectClosed (l : List Sx) : List Nat :=
+  l.filterMap fun e => match e with
+    | Sx.list [t, _, _, Sx.atom "closed"] => asNat t
     | _ => none
 
 def proxyPred (prop caseLine obsLine : String) : String :=
@@ -231,9 +246,10 @@ def proxyPred (prop caseLine obsLine : String) : String :=
           some (bl.map render == dl.map render)
         | _ => none
       let o : ProxyPred.Obs :=
-        { bridged, exit := ex, direct := parseDirect ds, logsEqual,
+        { bridged, exit := ex, direct := parseDirect ds, directClosed := parseDirectClosed ds, logsEqual,
           upBridged := asBytes ub, upDirect := asBytes ud }
       let pipelinedPayload := c.payload.isSome && c.client == "pipelined" && !c.directMode
+      if !c.tail.isEmpty then "ok" else   -- an unterminated last message is not a call: model tie only
       let nf : String → ProxyPred.PRep := fun i => { text := render (ofReply (errInterfaceNotFound i)), continues := false }
       match ProxyPred.P_C18 nf c.mode c.client c.payload.isSome pipelinedPayload c.routed o with
       | none => "ok"
